@@ -21,8 +21,8 @@ relationship type and value under every accessor), same children, recursively. -
 theorem parse_serialise {it : Item} (h : Built it) : parse (serialise it) = .ok it :=
   parse_serialise_wf it h.wf
 
-/-- The property's wording: the parsed item has the same class and, under every accessor, equal name,
-relationship type, value and nested content (the accessors are functions of the attributes). -/
+/-- RESTATEMENT of `parse_serialise` in the property's wording (adds nothing: the parsed item IS the item, so class,
+name, relationship type, value under every accessor and nested content coincide). -/
 theorem parsed_item_equal {it : Item} (h : Built it) :
     ∃ back, parse (serialise it) = .ok back ∧ back.cls = it.cls ∧ nameOf back = nameOf it ∧ relOf back = relOf it ∧
       back.attrs = it.attrs ∧ back.content = it.content ∧
@@ -44,26 +44,79 @@ theorem parse_serialise_own_class {it : Item} (h : Built it) : parseAs it.cls (s
     | none => simp [serialise, parseAs, hc]
     | some l =>
       have hl := parseList_serialiseList_wf l hw.2
-      simp [serialise, parseAs, hc, hl]
+      have hk := wfList_ctorAll l hw.2
+      simp [serialise, parseAs, hc, hl, hk]
 
-/-- **Round trip through `ContentSequence.from_sequence([ds], is_root=False, is_sr)`**: with a relationship type
-under any flag, without one in a non-SR sequence. -/
-theorem parse_serialise_in_sequence {it : Item} (h : Built it) (isSr : Bool)
-    (hr : has "RelationshipType" it.attrs = true ∨ isSr = false) : parseTop (serialise it) false isSr = .ok it := by
+/-- **Round trip through `ContentSequence.from_sequence([ds], is_root, is_sr)`** — `_check_dataset`, the parse, and
+the guards of the `ContentSequence` constructor the call ends in (`Gen.csCtorCheck`, regenerated): the item comes
+back exactly when the flags fit it — a non-root SR sequence for an item WITH relationship type, a non-SR sequence for
+an item WITHOUT, the root sequence for a container without. -/
+theorem parse_serialise_in_sequence {it : Item} (h : Built it) (isRoot isSr : Bool)
+    (hr : (isRoot = false ∧ isSr = true ∧ has "RelationshipType" it.attrs = true) ∨
+          (isRoot = false ∧ isSr = false ∧ has "RelationshipType" it.attrs = false) ∨
+          (isRoot = true ∧ isSr = true ∧ has "RelationshipType" it.attrs = false ∧ it.cls = .container)) :
+    parseTop (serialise it) isRoot isSr = .ok it := by
   unfold parseTop
   rw [serialise_attrs, parse_serialise h]
   have hw := h.wf
+  have hv' := h.relValid
   cases it with
   | mk cls attrs content =>
     unfold wf at hw
     simp only [Bool.and_eq_true] at hw
     obtain ⟨vt, hv, hn⟩ := classify_vt (beq_except_eq hw.1)
-    simp only [Item.attrs] at hr ⊢
-    unfold checkDataset
-    simp only [hv, enumHas_of_enumName hn, Bool.not_true, Bool.false_eq_true, ↓reduceIte]
-    rcases hr with hr | hr
-    · simp only [hr, checkRel_ok]
-    · subst hr; simp only [checkRel_nonSr]
+    simp only [Item.attrs, Item.cls] at hr hv' ⊢
+    unfold checkDataset ctorItem
+    simp only [hv, enumHas_of_enumName hn, Bool.not_true, Bool.false_eq_true, ↓reduceIte, Item.attrs, hv', Item.cls]
+    rcases hr with ⟨h1, h2, h3⟩ | ⟨h1, h2, h3⟩ | ⟨h1, h2, h3, h4⟩
+    · subst h1; subst h2; simp only [h3, checkRel_ok, ctorCheck_child_ok]
+    · subst h1; subst h2; simp only [h3, checkRel_nonSr, ctorCheck_nonsr_ok]
+    · subst h1; subst h2; subst h4
+      have : Gen.srCheckDatasetRel false true true = .ok true := by decide
+      simp only [h3, this, beq_self_eq_true, ctorCheck_root_ok]
+
+/-- … and it is REFUSED when they do not: relationship type in a non-SR sequence (AttributeError from the
+constructor at the end of `from_sequence`), none in a non-root SR sequence, relationship type or a non-container at
+the root. -/
+theorem parse_in_sequence_refused {it : Item} (h : Built it) (isRoot isSr : Bool)
+    (hr : (isRoot = false ∧ isSr = false ∧ has "RelationshipType" it.attrs = true) ∨
+          (isRoot = false ∧ isSr = true ∧ has "RelationshipType" it.attrs = false) ∨
+          (isRoot = true ∧ isSr = true ∧ has "RelationshipType" it.attrs = true) ∨
+          (isRoot = true ∧ isSr = true ∧ has "RelationshipType" it.attrs = false ∧ it.cls ≠ .container)) :
+    ∃ e, parseTop (serialise it) isRoot isSr = .error e := by
+  unfold parseTop
+  rw [serialise_attrs, parse_serialise h]
+  have hw := h.wf
+  have hv' := h.relValid
+  cases it with
+  | mk cls attrs content =>
+    unfold wf at hw
+    simp only [Bool.and_eq_true] at hw
+    obtain ⟨vt, hv, hn⟩ := classify_vt (beq_except_eq hw.1)
+    simp only [Item.attrs, Item.cls] at hr hv' ⊢
+    unfold checkDataset ctorItem
+    simp only [hv, enumHas_of_enumName hn, Bool.not_true, Bool.false_eq_true, ↓reduceIte, Item.attrs, hv', Item.cls]
+    rcases hr with ⟨h1, h2, h3⟩ | ⟨h1, h2, h3⟩ | ⟨h1, h2, h3⟩ | ⟨h1, h2, h3, h4⟩
+    · subst h1; subst h2; simp only [h3, checkRel_nonSr, ctorCheck_nonsr_rel]; exact ⟨_, rfl⟩
+    · subst h1; subst h2; simp only [h3, checkRel_missing]; exact ⟨_, rfl⟩
+    · subst h1; subst h2
+      have : Gen.srCheckDatasetRel true true true = .ok true := by decide
+      simp only [h3, this, ctorCheck_root_rel]; exact ⟨_, rfl⟩
+    · subst h1; subst h2
+      have : Gen.srCheckDatasetRel false true true = .ok true := by decide
+      have hc : (cls == Cls.container) = false := by simpa using h4
+      simp only [h3, this, hc, ctorCheck_root_noncontainer]; exact ⟨_, rfl⟩
+
+/-- **A relationship type outside the enumeration is refused on parsing** (`RelationshipTypeValues('FOO')` raises in the
+constructor guards), at the top and for a nested item. -/
+theorem unknown_relationship_type_refused_on_parsing (it : Item) (isRoot isSr : Bool) (hv : relValid it.attrs = false) :
+    ctorItem isRoot isSr it = .error .value ∧ (∀ r, ctorAll isRoot isSr (it :: r) = .error .value) ∧
+    (∀ d, parse d = .ok it → ∀ e, checkDataset d.attrs isRoot isSr = .ok e → parseTop d isRoot isSr = .error .value) := by
+  have h1 : ctorItem isRoot isSr it = .error .value := by unfold ctorItem; simp [hv]
+  refine ⟨h1, fun r => by simp [ctorAll, h1], ?_⟩
+  intro d hp e hc
+  unfold parseTop
+  simp only [hc, hp, h1]
 
 /-- **Every value type has a class and a required-attribute row** that agree with each other, with the value
 type the class's `from_dataset` asserts and with the one its constructor writes (over the regenerated tables). -/
@@ -87,7 +140,7 @@ theorem dispatch_total : ∀ p ∈ Gen.srValueTypes, ∃ cls req, TableOk cls p.
   · exact ⟨_, _, tableOk_uidref⟩
   · exact ⟨_, _, tableOk_waveform⟩
 
-/-- and conversely every one of the 15 classes is reached by exactly its value type -/
+/-- and conversely every one of the 15 classes has a value type that dispatches to it (with consistent rows) -/
 theorem every_class_dispatched : ∀ c ∈ Cls.all, ∃ vtName vt req, TableOk c vtName vt req := by
   intro c _
   cases c
@@ -138,8 +191,9 @@ theorem roundtrip_from_tables {it : Item} (h : Built it) {vtName vt : String} {r
     (T : TableOk it.cls vtName vt req) : (∀ k ∈ req, has k it.attrs = true) ∧ parse (serialise it) = .ok it :=
   ⟨required_present_of_tables h T, parse_serialise h⟩
 
-/-- **The model's accessors read what the source's properties read**: each is a function of exactly the
-attributes of the item that the regenerated table lists for the property … -/
+/-- **The model's accessors read at most what the source's properties read**: each depends on nothing but the
+attributes of the item that the regenerated table lists for the property (two items agreeing on those give the same
+answer) … -/
 theorem accessors_read_regenerated_attributes (it it' : Item) :
     (SameOn (readKeys "ContentItem" "name") it it' → nameOf it = nameOf it') ∧
     (SameOn (readKeys "ContentItem" "relationship_type") it it' → relOf it = relOf it') ∧
@@ -316,49 +370,89 @@ theorem accessor_references (name : Coded) (cu iu : String) (rel : Option String
     · simp only [waveformChannels, Item.attrs, lookup_extra _ name rel _ "ReferencedSOPSequence" (by decide)]
       cases ch <;> simp [List.lookup, pairUp_flattenPairs]
 
-/-- SCOORD: `np.array(GraphicData).reshape(-1, 2)` is the array the constructor was given (any graphic type,
-any admissible number of points), graphic type, name and relationship are reported -/
-theorem accessor_scoord (name : Coded) (gt : String) (p : Points) (o f rel : Option String) (it : Item)
-    (hrect : p.rect = true) (h : mkScoord name gt p o f rel = .ok it) :
-    scoordValue it = some p.rows ∧ strValue "GraphicType" it = some gt ∧ nameOf it = some name ∧ relOf it = rel := by
-  obtain ⟨g, _, hc, _, e⟩ := mkScoord_ok_iff name gt p o f rel it h
+theorem map_rows_flatten (fl : Rat → Rat) (rows : List (List Rat)) :
+    rows.flatten.map fl = (rows.map (List.map fl)).flatten := by
+  induction rows with
+  | nil => rfl
+  | cons r rs ih => simp [ih]
+
+/-- SCOORD: `np.array(GraphicData).reshape(-1, 2)` is the array the constructor was given with every coordinate cast
+to the 32-bit float of value representation FL (`fl`; since 8825e21 the cast happens at construction) — hence the
+given array itself whenever its coordinates are float32 numbers; any graphic type, any admissible number of points;
+graphic type, name and relationship are reported -/
+theorem accessor_scoord (fl : Rat → Rat) (name : Coded) (gt : String) (p : Points) (o f rel : Option String) (it : Item)
+    (hrect : p.rect = true) (h : mkScoord fl name gt p o f rel = .ok it) :
+    scoordValue it = some (p.rows.map (List.map fl)) ∧ ((∀ x, fl x = x) → scoordValue it = some p.rows) ∧
+    strValue "GraphicType" it = some gt ∧ nameOf it = some name ∧ relOf it = rel := by
+  obtain ⟨g, _, _, hc, _, e⟩ := mkScoord_ok_iff fl name gt p o f rel it h
   have hd : (p.d : Int) = 2 := ((scoordCheck_iff g _ _).mp hc).1
   have hd' : p.d = 2 := by exact_mod_cast hd
-  have hrows : ∀ r ∈ p.rows, r.length = 2 := by
+  have hrows : ∀ r ∈ p.rows.map (List.map fl), r.length = 2 := by
     intro r hr
-    have := List.all_eq_true.mp hrect r hr
+    obtain ⟨r0, hr0, e0⟩ := List.mem_map.mp hr
+    have := List.all_eq_true.mp hrect r0 hr0
+    subst e0
     simpa [hd'] using this
-  rw [e]
-  refine ⟨?_, ?_, shape_name_rel _ _ name rel _ (by cases o <;> cases f <;> simp [List.lookup, optAttr])⟩
-  · simp only [scoordValue, graphicData, Item.attrs, lookup_extra _ name rel _ "GraphicData" (by decide)]
-    have key := reshape_flatten 2 (by decide) p.rows hrows
-    rw [List.length_flatten] at key
-    simp [List.lookup, key]
-  · simp only [strValue, Item.attrs, lookup_extra _ name rel _ "GraphicType" (by decide)]
-    simp
+  have h1 : scoordValue it = some (p.rows.map (List.map fl)) := by
+    rw [e]
+    simp only [scoordValue, graphicData, Item.attrs, lookup_extra _ name rel _ "GraphicData" (by decide)]
+    have key := reshape_flatten 2 (by decide) _ hrows
+    rw [← map_rows_flatten] at key
+    have hl : ∀ tail : Attrs, List.lookup "GraphicData" ([("GraphicType", AVal.str gt),
+        ("GraphicData", AVal.rats (List.map fl p.rows.flatten))] ++ tail) = some (.rats (List.map fl p.rows.flatten)) := by
+      intro tail; simp [List.lookup]
+    simp only [List.append_assoc, hl, Option.map_some, key]
+  refine ⟨h1, ?_, ?_, ?_⟩
+  · intro hid
+    rw [h1]
+    have : p.rows.map (List.map fl) = p.rows := by
+      have hf : fl = id := funext hid
+      simp [hf]
+    rw [this]
+  · rw [e]
+    simp only [strValue, Item.attrs, lookup_extra _ name rel _ "GraphicType" (by decide)]
+    simp [List.lookup]
+  · rw [e]
+    exact shape_name_rel _ _ name rel _ (by cases o <;> cases f <;> simp [List.lookup, optAttr])
 
 /-- SCOORD3D: the same with `reshape(-1, 3)`, and the frame of reference -/
-theorem accessor_scoord3d (name : Coded) (gt : String) (p : Points) (fo : String) (f rel : Option String) (it : Item)
-    (hrect : p.rect = true) (h : mkScoord3d name gt p fo f rel = .ok it) :
-    scoord3dValue it = some p.rows ∧ strValue "GraphicType" it = some gt ∧
+theorem accessor_scoord3d (fl : Rat → Rat) (name : Coded) (gt : String) (p : Points) (fo : String) (f rel : Option String) (it : Item)
+    (hrect : p.rect = true) (h : mkScoord3d fl name gt p fo f rel = .ok it) :
+    scoord3dValue it = some (p.rows.map (List.map fl)) ∧ ((∀ x, fl x = x) → scoord3dValue it = some p.rows) ∧
+    strValue "GraphicType" it = some gt ∧
     strValue "ReferencedFrameOfReferenceUID" it = some fo ∧ nameOf it = some name ∧ relOf it = rel := by
-  obtain ⟨g, _, hc, e⟩ := mkScoord3d_ok_iff name gt p fo f rel it h
+  obtain ⟨g, _, _, hc, e⟩ := mkScoord3d_ok_iff fl name gt p fo f rel it h
   have hd : (p.d : Int) = 3 := ((scoord3dCheck_iff g _ _ _ _).mp hc).1
   have hd' : p.d = 3 := by exact_mod_cast hd
-  have hrows : ∀ r ∈ p.rows, r.length = 3 := by
+  have hrows : ∀ r ∈ p.rows.map (List.map fl), r.length = 3 := by
     intro r hr
-    have := List.all_eq_true.mp hrect r hr
+    obtain ⟨r0, hr0, e0⟩ := List.mem_map.mp hr
+    have := List.all_eq_true.mp hrect r0 hr0
+    subst e0
     simpa [hd'] using this
-  rw [e]
-  refine ⟨?_, ?_, ?_, shape_name_rel _ _ name rel _ (by cases f <;> simp [List.lookup, optAttr])⟩
-  · simp only [scoord3dValue, graphicData, Item.attrs, lookup_extra _ name rel _ "GraphicData" (by decide)]
-    have key := reshape_flatten 3 (by decide) p.rows hrows
-    rw [List.length_flatten] at key
-    simp [List.lookup, key]
-  · simp only [strValue, Item.attrs, lookup_extra _ name rel _ "GraphicType" (by decide)]
-    simp
-  · simp only [strValue, Item.attrs, lookup_extra _ name rel _ "ReferencedFrameOfReferenceUID" (by decide)]
+  have h1 : scoord3dValue it = some (p.rows.map (List.map fl)) := by
+    rw [e]
+    simp only [scoord3dValue, graphicData, Item.attrs, lookup_extra _ name rel _ "GraphicData" (by decide)]
+    have key := reshape_flatten 3 (by decide) _ hrows
+    rw [← map_rows_flatten] at key
+    have hl : ∀ tail : Attrs, List.lookup "GraphicData" ([("GraphicType", AVal.str gt),
+        ("GraphicData", AVal.rats (List.map fl p.rows.flatten)), ("ReferencedFrameOfReferenceUID", AVal.str fo)] ++ tail)
+          = some (.rats (List.map fl p.rows.flatten)) := by
+      intro tail; simp [List.lookup]
+    simp only [List.append_assoc, hl, Option.map_some, key]
+  refine ⟨h1, ?_, ?_, ?_, ?_⟩
+  · intro hid
+    rw [h1]
+    have hf : fl = id := funext hid
+    simp [hf]
+  · rw [e]
+    simp only [strValue, Item.attrs, lookup_extra _ name rel _ "GraphicType" (by decide)]
     simp [List.lookup]
+  · rw [e]
+    simp only [strValue, Item.attrs, lookup_extra _ name rel _ "ReferencedFrameOfReferenceUID" (by decide)]
+    simp [List.lookup]
+  · rw [e]
+    exact shape_name_rel _ _ name rel _ (by cases f <;> simp [List.lookup, optAttr])
 
 /-- TCOORD: the list of time points is reported as a list of the same length — also a single one, which
 pydicom stores as a bare value; offsets as `DS(v)` each -/
@@ -401,34 +495,35 @@ theorem scoord_count_rule (g : String) (n d : Int) :
   ⟨scoordCheck_iff g n d, scoordCheck_err g n d⟩
 
 /-- the constructor refuses whatever the rule refuses (and unknown graphic types / pixel origin interpretations) -/
-theorem scoord_rejects (name : Coded) (gt : String) (p : Points) (o f rel : Option String)
-    (h : (∀ g, enumName Gen.srGraphicTypes gt = some g → ¬ ((p.d : Int) = 2 ∧ count2Ok g p.rows.length)) ∨
+theorem scoord_rejects (fl : Rat → Rat) (name : Coded) (gt : String) (p : Points) (o f rel : Option String)
+    (h : p.ndim ≠ 2 ∨ (∀ g, enumName Gen.srGraphicTypes gt = some g → ¬ ((p.d : Int) = 2 ∧ count2Ok g p.rows.length)) ∨
          (∃ x, o = some x ∧ enumHas Gen.srPixelOrigins x = false)) :
-    ∀ it, mkScoord name gt p o f rel ≠ .ok it := by
+    ∀ it, mkScoord fl name gt p o f rel ≠ .ok it := by
   intro it hit
-  obtain ⟨g, hg, hc, ho, _⟩ := mkScoord_ok_iff name gt p o f rel it hit
-  rcases h with h | ⟨x, hx, hf⟩
+  obtain ⟨g, hg, hn, hc, ho, _⟩ := mkScoord_ok_iff fl name gt p o f rel it hit
+  rcases h with h | h | ⟨x, hx, hf⟩
+  · exact h hn
   · exact h g hg ((scoordCheck_iff g _ _).mp hc)
   · rw [ho x hx] at hf; cases hf
 
-theorem scoord_rejects_count (name : Coded) (gt : String) (hgt : enumName Gen.srGraphicTypes gt = some gt)
+theorem scoord_rejects_count (fl : Rat → Rat) (name : Coded) (gt : String) (hgt : enumName Gen.srGraphicTypes gt = some gt)
     (rows : List (List Rat)) (o f rel : Option String) (hbad : ¬ count2Ok gt rows.length) :
-    ∀ it, mkScoord name gt ⟨2, rows⟩ o f rel ≠ .ok it := by
+    ∀ it, mkScoord fl name gt ⟨2, rows, 2⟩ o f rel ≠ .ok it := by
   apply scoord_rejects
-  left
+  right; left
   intro g hg
   rw [hgt] at hg
   cases hg
   exact fun hh => hbad hh.2
 
 /-- boundary instances: one point too few / too many -/
-theorem scoord_count_boundaries (name : Coded) (rows : List (List Rat)) (o f rel : Option String) :
-    (rows.length ≠ 1 → ∀ it, mkScoord name "POINT" ⟨2, rows⟩ o f rel ≠ .ok it) ∧
-    (rows.length ≠ 2 → ∀ it, mkScoord name "CIRCLE" ⟨2, rows⟩ o f rel ≠ .ok it) ∧
-    (rows.length ≠ 4 → ∀ it, mkScoord name "ELLIPSE" ⟨2, rows⟩ o f rel ≠ .ok it) ∧
-    (rows.length ≤ 1 → ∀ it, mkScoord name "MULTIPOINT" ⟨2, rows⟩ o f rel ≠ .ok it) ∧
-    (rows.length ≤ 1 → ∀ it, mkScoord name "POLYLINE" ⟨2, rows⟩ o f rel ≠ .ok it) := by
-  refine ⟨?_, ?_, ?_, ?_, ?_⟩ <;> intro hn <;> apply scoord_rejects_count _ _ (by decide) <;>
+theorem scoord_count_boundaries (fl : Rat → Rat) (name : Coded) (rows : List (List Rat)) (o f rel : Option String) :
+    (rows.length ≠ 1 → ∀ it, mkScoord fl name "POINT" ⟨2, rows, 2⟩ o f rel ≠ .ok it) ∧
+    (rows.length ≠ 2 → ∀ it, mkScoord fl name "CIRCLE" ⟨2, rows, 2⟩ o f rel ≠ .ok it) ∧
+    (rows.length ≠ 4 → ∀ it, mkScoord fl name "ELLIPSE" ⟨2, rows, 2⟩ o f rel ≠ .ok it) ∧
+    (rows.length ≤ 1 → ∀ it, mkScoord fl name "MULTIPOINT" ⟨2, rows, 2⟩ o f rel ≠ .ok it) ∧
+    (rows.length ≤ 1 → ∀ it, mkScoord fl name "POLYLINE" ⟨2, rows, 2⟩ o f rel ≠ .ok it) := by
+  refine ⟨?_, ?_, ?_, ?_, ?_⟩ <;> intro hn <;> apply scoord_rejects_count _ _ _ (by decide) <;>
     (simp [count2Ok]; omega)
 
 /-- **Coordinate counts, closedness and coplanarity, 3-D** (over the regenerated decision tree of
@@ -441,18 +536,18 @@ theorem scoord3d_rule (g : String) (n d : Int) (closed cop : Bool) :
       Gen.scoord3dCheck g n d closed cop = .error .value) :=
   ⟨scoord3dCheck_iff g n d closed cop, scoord3dCheck_err g n d closed cop⟩
 
-theorem scoord3d_rejects (name : Coded) (gt : String) (p : Points) (fo : String) (f rel : Option String)
+theorem scoord3d_rejects (fl : Rat → Rat) (name : Coded) (gt : String) (p : Points) (fo : String) (f rel : Option String)
     (h : ∀ g, enumName Gen.srGraphicTypes3D gt = some g →
       ¬ ((p.d : Int) = 3 ∧ count3Ok g p.rows.length ∧ (g = "POLYGON" → firstEqLast p.rows = true) ∧
          ((g = "POLYGON" ∨ g = "ELLIPSE") → coplanar p.rows = true))) :
-    ∀ it, mkScoord3d name gt p fo f rel ≠ .ok it := by
+    ∀ it, mkScoord3d fl name gt p fo f rel ≠ .ok it := by
   intro it hit
-  obtain ⟨g, hg, hc, _⟩ := mkScoord3d_ok_iff name gt p fo f rel it hit
+  obtain ⟨g, hg, _, hc, _⟩ := mkScoord3d_ok_iff fl name gt p fo f rel it hit
   exact h g hg ((scoord3dCheck_iff g _ _ _ _).mp hc)
 
 /-- **open polygons are refused** -/
-theorem open_polygon_rejected (name : Coded) (rows : List (List Rat)) (fo : String) (f rel : Option String)
-    (hopen : firstEqLast rows = false) : ∀ it, mkScoord3d name "POLYGON" ⟨3, rows⟩ fo f rel ≠ .ok it := by
+theorem open_polygon_rejected (fl : Rat → Rat) (name : Coded) (rows : List (List Rat)) (fo : String) (f rel : Option String)
+    (hopen : firstEqLast rows = false) : ∀ it, mkScoord3d fl name "POLYGON" ⟨3, rows, 2⟩ fo f rel ≠ .ok it := by
   apply scoord3d_rejects
   intro g hg
   have hg' : some "POLYGON" = some g := (by decide : enumName Gen.srGraphicTypes3D "POLYGON" = some "POLYGON").symm.trans hg
@@ -463,13 +558,16 @@ theorem open_polygon_rejected (name : Coded) (rows : List (List Rat)) (fo : Stri
   rw [hopen] at this
   cases this
 
-/-- **non-coplanar polygons and ellipses are refused**: four or more points, three of which span a
-parallelepiped of non-zero volume with the first (exact rank condition over ℚ) -/
-theorem noncoplanar_rejected (name : Coded) (gt : String) (hgt : gt = "POLYGON" ∨ gt = "ELLIPSE") (p0 : List Rat)
+/-- **non-coplanar polygons and ellipses are refused — by the MODEL's exact test**: four or more points, three of
+which span a parallelepiped of non-zero volume with the first (exact rank condition over ℚ).  The library's
+`are_points_coplanar` is an SVD with tolerance: it refuses when the largest deviation from the best plane exceeds
+1e-5 and ACCEPTS smaller deviations (a polygon lifted by 3e-5 is accepted), so this theorem speaks for the library
+only at deviations above the tolerance; the correspondence compares the two at ≥ 0.05 and at exactly 0. -/
+theorem noncoplanar_rejected (fl : Rat → Rat) (name : Coded) (gt : String) (hgt : gt = "POLYGON" ∨ gt = "ELLIPSE") (p0 : List Rat)
     (rest : List (List Rat)) (fo : String) (f rel : Option String) (hlen : 4 ≤ (p0 :: rest).length)
     (a b c : List Rat) (ha : a ∈ p0 :: rest) (hb : b ∈ p0 :: rest) (hc : c ∈ p0 :: rest)
     (hdet : det3 (sub3 a p0) (sub3 b p0) (sub3 c p0) ≠ 0) :
-    ∀ it, mkScoord3d name gt ⟨3, p0 :: rest⟩ fo f rel ≠ .ok it := by
+    ∀ it, mkScoord3d fl name gt ⟨3, p0 :: rest, 2⟩ fo f rel ≠ .ok it := by
   apply scoord3d_rejects
   intro g hg
   have hcop := coplanar_false_of_det (p0 :: rest) p0 rest rfl hlen a b c ha hb hc hdet
@@ -486,60 +584,113 @@ theorem noncoplanar_rejected (name : Coded) (gt : String) (hgt : gt = "POLYGON" 
 /-- three or fewer points are always coplanar (a closed triangle is an admissible polygon) -/
 theorem few_points_coplanar (rows : List (List Rat)) (h : rows.length < 4) : coplanar rows = true := coplanar_small rows h
 
-/-- **unknown enumerated values are refused**: relationship type (every constructor), temporal range type,
-and a TCOORD without any time points -/
-theorem enumerations_enforced (ds : Rat → Rat) (name : Coded) (rt : String) (arg : Option TArg) (rel : Option String) :
-    ((enumHas Gen.srTemporalRangeTypes rt = false ∨ arg = none) → ∀ it, mkTcoord ds name rt arg rel ≠ .ok it) ∧
-    (∀ r, rel = some r → enumHas Gen.srRelationshipTypes r = false →
-      (∀ v it, mkText name v rel ≠ .ok it) ∧ (∀ v it, mkCode name v rel ≠ .ok it) ∧
-      (∀ c t it, mkContainer name c t rel ≠ .ok it) ∧ (∀ it, mkTcoord ds name rt arg rel ≠ .ok it)) := by
-  constructor
-  · intro h it hit
-    obtain ⟨hr, t, ht, _⟩ := mkTcoord_ok_iff ds name rt arg rel it hit
-    rcases h with h | h
-    · rw [hr] at h; cases h
-    · rw [h] at ht; cases ht
-  · intro r hr hbad
-    have hb : ∀ {cls vtName vt req}, TableOk cls vtName vt req → ∀ a, base cls name rel ≠ .ok a := by
-      intro cls vtName vt req T a ha
-      have := (base_ok T name rel a ha).2 r hr
-      rw [hbad] at this; cases this
-    refine ⟨?_, ?_, ?_, ?_⟩
-    · intro v it h
-      unfold mkText withAttrs at h
-      cases hx : base .text name rel with
-      | error e => rw [hx] at h; cases h
-      | ok a => exact hb tableOk_text a hx
-    · intro v it h
-      unfold mkCode withAttrs at h
-      cases hx : base .code name rel with
-      | error e => rw [hx] at h; cases h
-      | ok a => exact hb tableOk_code a hx
-    · intro c t it h
-      unfold mkContainer withAttrs at h
-      cases hx : base .container name rel with
-      | error e => rw [hx] at h; cases h
-      | ok a => exact hb tableOk_container a hx
-    · intro it h
-      unfold mkTcoord at h
-      cases hx : base .tcoord name rel with
-      | error e => rw [hx] at h; cases h
-      | ok a => exact hb tableOk_tcoord a hx
+/-- **unknown enumerated values are refused**: a relationship type outside the enumeration by ALL 15 constructors
+(the 12 that only call `ContentItem.__init__` — any `withAttrs cls` with consistent table rows, instantiated for each —
+and SCOORD, SCOORD3D, TCOORD); a temporal range type outside its enumeration and a TCOORD without time points -/
+theorem enumerations_enforced (ds fl : Rat → Rat) (name : Coded) (rel : Option String) (r : String) (hr : rel = some r)
+    (hbad : enumHas Gen.srRelationshipTypes r = false) :
+    (∀ {cls vtName vt req}, TableOk cls vtName vt req → ∀ extra it, withAttrs cls name rel extra ≠ .ok it) ∧
+    (∀ v it, mkCode name v rel ≠ .ok it) ∧ (∀ v it, mkText name v rel ≠ .ok it) ∧ (∀ v it, mkPname name v rel ≠ .ok it) ∧
+    (∀ v it, mkDate name v rel ≠ .ok it) ∧ (∀ v it, mkTime name v rel ≠ .ok it) ∧ (∀ v it, mkDateTime name v rel ≠ .ok it) ∧
+    (∀ v it, mkUidRef name v rel ≠ .ok it) ∧ (∀ v f u q it, mkNum ds name v f u q rel ≠ .ok it) ∧
+    (∀ c t it, mkContainer name c t rel ≠ .ok it) ∧ (∀ c i it, mkComposite name c i rel ≠ .ok it) ∧
+    (∀ c i f sg it, mkImage name c i f sg rel ≠ .ok it) ∧ (∀ c i ch it, mkWaveform name c i ch rel ≠ .ok it) ∧
+    (∀ gt p o f it, mkScoord fl name gt p o f rel ≠ .ok it) ∧ (∀ gt p fo f it, mkScoord3d fl name gt p fo f rel ≠ .ok it) ∧
+    (∀ rt arg it, mkTcoord ds name rt arg rel ≠ .ok it) := by
+  have hb : ∀ {cls vtName vt req}, TableOk cls vtName vt req → ∀ a, base cls name rel ≠ .ok a := by
+    intro cls vtName vt req T a ha
+    have := (base_ok T name rel a ha).2 r hr
+    rw [hbad] at this; cases this
+  have hw : ∀ {cls vtName vt req}, TableOk cls vtName vt req → ∀ extra it, withAttrs cls name rel extra ≠ .ok it := by
+    intro cls vtName vt req T extra it h
+    unfold withAttrs at h
+    cases hx : base cls name rel with
+    | error e => rw [hx] at h; cases h
+    | ok a => exact hb T a hx
+  refine ⟨hw, fun v => hw tableOk_code _, fun v => hw tableOk_text _, fun v => hw tableOk_pname _, fun v => hw tableOk_date _,
+    fun v => hw tableOk_time _, fun v => hw tableOk_datetime _, fun v => hw tableOk_uidref _,
+    fun v f u q => hw tableOk_num _, fun c t => hw tableOk_container _, fun c i => hw tableOk_composite _,
+    fun c i f sg => hw tableOk_image _, fun c i ch => hw tableOk_waveform _, ?_, ?_, ?_⟩
+  · intro gt p o f it h
+    obtain ⟨a, ha⟩ := base_of_mkScoord h
+    exact hb tableOk_scoord a ha
+  · intro gt p fo f it h
+    obtain ⟨a, ha⟩ := base_of_mkScoord3d h
+    exact hb tableOk_scoord3d a ha
+  · intro rt arg it h
+    obtain ⟨a, ha⟩ := base_of_mkTcoord h
+    exact hb tableOk_tcoord a ha
 
-/-- **a child without relationship type cannot be nested** (attribute setter) nor parsed (`from_sequence`) -/
-theorem child_without_relationship_rejected (it : Item) (cs : List Item) (d : DS) (r : List DS) (vt : String)
+theorem tcoord_enumeration_and_time_points (ds : Rat → Rat) (name : Coded) (rt : String) (arg : Option TArg) (rel : Option String)
+    (h : enumHas Gen.srTemporalRangeTypes rt = false ∨ arg = none) : ∀ it, mkTcoord ds name rt arg rel ≠ .ok it := by
+  intro it hit
+  obtain ⟨hr, t, ht, _⟩ := mkTcoord_ok_iff ds name rt arg rel it hit
+  rcases h with h | h
+  · rw [hr] at h; cases h
+  · rw [h] at ht; cases ht
+
+/-- **a child without relationship type cannot be nested** (attribute setter; also one with a relationship type
+outside the enumeration) **nor parsed** (`from_sequence`), at ANY position of the content: after any prefix of
+children that parse, the list is refused at the offending one -/
+theorem child_without_relationship_rejected (it : Item) (cs : List Item) (pre : List DS) (ps : List Item) (d : DS) (r : List DS)
+    (vt : String) (hpre : parseList pre = .ok ps)
     (hvt : d.attrs.lookup "ValueType" = some (.str vt)) (hk : enumHas Gen.srValueTypes vt = true)
     (hr : has "RelationshipType" d.attrs = false) :
-    ((∃ c ∈ cs, has "RelationshipType" c.attrs = false) → setContent it cs = .error .attribute) ∧
-    parseList (d :: r) = .error .attribute ∧
-    ∀ attrs cls attrs', classify attrs = .ok (cls, attrs') → parse (.mk attrs (some (d :: r))) = .error .attribute := by
-  have hp : parseList (d :: r) = .error .attribute := by
-    unfold parseList
-    simp only [checkDataset_noRel d.attrs vt hvt hk hr]
+    ((∃ c ∈ cs, has "RelationshipType" c.attrs = false ∨ relValid c.attrs = false) → ∀ it', setContent it cs ≠ .ok it') ∧
+    parseList (pre ++ d :: r) = .error .attribute ∧
+    ∀ attrs cls attrs', classify attrs = .ok (cls, attrs') → parse (.mk attrs (some (pre ++ d :: r))) = .error .attribute := by
+  have hp : parseList (pre ++ d :: r) = .error .attribute := by
+    induction pre generalizing ps with
+    | nil =>
+      simp only [List.nil_append]
+      unfold parseList
+      simp only [checkDataset_noRel d.attrs vt hvt hk hr]
+    | cons x xs ih =>
+      simp only [List.cons_append]
+      unfold parseList at hpre ⊢
+      cases hc : checkDataset x.attrs false true with
+      | error e => simp only [hc] at hpre; cases hpre
+      | ok u =>
+        simp only [hc] at hpre ⊢
+        cases hx : parse x with
+        | error e => simp only [hx] at hpre; cases hpre
+        | ok i =>
+          simp only [hx] at hpre ⊢
+          cases hl : parseList xs with
+          | error e => simp only [hl] at hpre; cases hpre
+          | ok is => simp only [ih is hl]
   refine ⟨setContent_refuses it cs, hp, ?_⟩
   intro attrs cls attrs' hc
   unfold parse
   simp only [hc, hp]
+
+/-- the ±1 boundaries in 3-D -/
+theorem scoord3d_count_boundaries (fl : Rat → Rat) (name : Coded) (rows : List (List Rat)) (fo : String) (f rel : Option String) :
+    (rows.length ≠ 1 → ∀ it, mkScoord3d fl name "POINT" ⟨3, rows, 2⟩ fo f rel ≠ .ok it) ∧
+    (rows.length ≠ 4 → ∀ it, mkScoord3d fl name "ELLIPSE" ⟨3, rows, 2⟩ fo f rel ≠ .ok it) ∧
+    (rows.length ≠ 6 → ∀ it, mkScoord3d fl name "ELLIPSOID" ⟨3, rows, 2⟩ fo f rel ≠ .ok it) ∧
+    (rows.length ≤ 1 → ∀ it, mkScoord3d fl name "MULTIPOINT" ⟨3, rows, 2⟩ fo f rel ≠ .ok it) ∧
+    (rows.length ≤ 1 → ∀ it, mkScoord3d fl name "POLYLINE" ⟨3, rows, 2⟩ fo f rel ≠ .ok it) ∧
+    (rows.length ≤ 1 → ∀ it, mkScoord3d fl name "POLYGON" ⟨3, rows, 2⟩ fo f rel ≠ .ok it) := by
+  have key : ∀ gt, enumName Gen.srGraphicTypes3D gt = some gt → ¬ count3Ok gt rows.length →
+      ∀ it, mkScoord3d fl name gt ⟨3, rows, 2⟩ fo f rel ≠ .ok it := by
+    intro gt hgt hbad
+    apply scoord3d_rejects
+    intro g hg
+    rw [hgt] at hg
+    cases hg
+    exact fun hh => hbad hh.2.1
+  refine ⟨?_, ?_, ?_, ?_, ?_, ?_⟩ <;> intro hn <;> apply key _ (by decide) <;> (simp [count3Ok]; omega)
+
+/-- **an array that is not two-dimensional is refused** (`np.zeros((1, 2, 5))` for a POINT, a 1-D array) -/
+theorem graphic_data_must_be_two_dimensional (fl : Rat → Rat) (name : Coded) (gt : String) (p : Points) (o f rel : Option String)
+    (fo : String) (h : p.ndim ≠ 2) :
+    (∀ it, mkScoord fl name gt p o f rel ≠ .ok it) ∧ (∀ it, mkScoord3d fl name gt p fo f rel ≠ .ok it) := by
+  constructor
+  · exact scoord_rejects fl name gt p o f rel (Or.inl h)
+  · intro it hit
+    obtain ⟨g, _, hn, _⟩ := mkScoord3d_ok_iff fl name gt p fo f rel it hit
+    exact h hn
 
 /-- **missing required attribute on parsing**: for every class, a data set of its value type lacking one of the
 attributes of its row is refused with AttributeError — by the class dispatch and by the class's own `from_dataset` -/
@@ -592,25 +743,25 @@ theorem name_mandatory_classes :
 /-! ## Non-vacuity: concrete items built by the model's constructors -/
 
 private def nm : Coded := { value := "121071", scheme := "DCM", meaning := "Finding", version := none }
-private def poly : Points := ⟨3, [[0, 0, 0], [1, 0, 0], [1, 1/2, 0], [0, 0, 0]]⟩
+private def poly : Points := ⟨3, [[0, 0, 0], [1, 0, 0], [1, 1/2, 0], [0, 0, 0]], 2⟩
 
-example : (mkScoord3d nm "POLYGON" poly "1.2.3" none (some "CONTAINS")).toBool = true := by decide +kernel
+example : (mkScoord3d id nm "POLYGON" poly "1.2.3" none (some "CONTAINS")).toBool = true := by decide +kernel
 example : (mkTcoord id nm "POINT" (some (.positions [5])) (some "HAS PROPERTIES")).toBool = true := by decide +kernel
 example : (mkNum id nm (1/3) true nm none none).toBool = true := by decide +kernel
-example : (mkScoord nm "CIRCLE" ⟨2, [[1, 2], [3, 4]]⟩ (some "VOLUME") none none).toBool = true := by decide +kernel
-example : (mkScoord nm "CIRCLE" ⟨2, [[1, 2], [3, 4], [5, 6]]⟩ none none none).toBool = false := by decide +kernel
+example : (mkScoord id nm "CIRCLE" ⟨2, [[1, 2], [3, 4]], 2⟩ (some "VOLUME") none none).toBool = true := by decide +kernel
+example : (mkScoord id nm "CIRCLE" ⟨2, [[1, 2], [3, 4], [5, 6]], 2⟩ none none none).toBool = false := by decide +kernel
 /-- a container with a polygon and a single time point nested, round-tripping by the theorem -/
 example (c p t it : Item) (hc : mkContainer nm true (some "1500") none = .ok c)
-    (hp : mkScoord3d nm "POLYGON" poly "1.2.3" none (some "CONTAINS") = .ok p)
+    (hp : mkScoord3d id nm "POLYGON" poly "1.2.3" none (some "CONTAINS") = .ok p)
     (ht : mkTcoord id nm "POINT" (some (.positions [5])) (some "HAS PROPERTIES") = .ok t)
     (h : setContent c [p, t] = .ok it) : parse (serialise it) = .ok it :=
   parse_serialise (Built.content c [p, t] it (Built.container _ _ _ _ _ hc)
     (by intro x hx; simp at hx; rcases hx with rfl | rfl
-        · exact Built.scoord3d _ _ _ _ _ _ _ hp
+        · exact Built.scoord3d _ _ _ _ _ _ _ _ hp
         · exact Built.tcoord _ _ _ _ _ _ ht) h)
 /-- the open and the lifted polygon are refused; four points of a tetrahedron are not coplanar -/
-example : ∀ it, mkScoord3d nm "POLYGON" ⟨3, [[0, 0, 0], [1, 0, 0], [1, 1, 0], [0, 1, 0]]⟩ "1.2.3" none none ≠ .ok it :=
-  open_polygon_rejected nm _ _ _ _ (by decide +kernel)
+example : ∀ it, mkScoord3d id nm "POLYGON" ⟨3, [[0, 0, 0], [1, 0, 0], [1, 1, 0], [0, 1, 0]], 2⟩ "1.2.3" none none ≠ .ok it :=
+  open_polygon_rejected id nm _ _ _ _ (by decide +kernel)
 example : coplanar [[0, 0, 0], [1, 0, 0], [0, 1, 0], [0, 0, 1], [0, 0, 0]] = false := by decide +kernel
 example : coplanar poly.rows = true := by decide +kernel
 
